@@ -147,7 +147,8 @@ where
 
     fn normalize(&self) -> String {
         // Tweak everything into canonical form
-        self.as_ref()
+        let canonical = self
+            .as_ref()
             .trim()
             .trim_matches(':')
             .replace("\n:", "\n")
@@ -167,19 +168,8 @@ where
             .replace(" >", ">")
             .replace(" <", "<")
             .replace('>', "|omit_inv ")
-            .replace('<', "|omit_fwd ")
-            // Subscript digits are sugar for indices - in the key of a key=value pair,
-            // in a flag (push v₁), and in the name looked up by a value (x=$x₀)
-            .replace('₀', "_0")
-            .replace('₁', "_1")
-            .replace('₂', "_2")
-            .replace('₃', "_3")
-            .replace('₄', "_4")
-            .replace('₅', "_5")
-            .replace('₆', "_6")
-            .replace('₇', "_7")
-            .replace('₈', "_8")
-            .replace('₉', "_9")
+            .replace('<', "|omit_fwd ");
+        desugar_subscripts(&canonical)
             .replace("$ ", "$") // But keep " $" as is!
             .split_whitespace()
             .collect::<Vec<_>>()
@@ -207,6 +197,44 @@ where
             .unwrap_or(&"".to_string())
             .to_string()
     }
+}
+
+fn desugar_subscripts(normalized: &str) -> String {
+    // Subscript digits are sugar for indices - in the key of a key=value pair,
+    // in a flag (push v₁), and in the name looked up by a value (x=$x₀).
+    // The name of the operator (or macro), and all other values, are left as written
+    let sub = |text: &str| -> String {
+        let mut text = text.to_string();
+        for (i, c) in "₀₁₂₃₄₅₆₇₈₉".chars().enumerate() {
+            text = text.replace(c, &format!("_{i}"));
+        }
+        text
+    };
+    normalized
+        .split('|')
+        .map(|step| {
+            let mut name_seen = false;
+            step.split(' ')
+                .map(|token| {
+                    if let Some((key, value)) = token.split_once('=') {
+                        let value = match value.starts_with('$') {
+                            true => sub(value),
+                            false => value.to_string(),
+                        };
+                        return sub(key) + "=" + &value;
+                    }
+                    // The first element that is neither a key=value pair nor a modifier is the name
+                    if !name_seen && !["", "inv", "omit_fwd", "omit_inv"].contains(&token) {
+                        name_seen = true;
+                        return token.to_string();
+                    }
+                    sub(token)
+                })
+                .collect::<Vec<_>>()
+                .join(" ")
+        })
+        .collect::<Vec<_>>()
+        .join("|")
 }
 
 /// Translate a PROJ string into Rust Geodesy format. Since PROJ is syntactically
